@@ -26,6 +26,9 @@ META = {
             "verified: std::string_view (find/compare/substr), line/column bookkeeping (not modelled), the arena allocator "
             "(unused by the parser), XmlDecl token kind (never produced by the code: '<?xml' is reported as a PI).",
 }
+
+# ---- additions of the translator / tie session (appended to the manifest texts)
+META["text"] += " GenTie.v: default options = xml::Options{} of the current headers (regenerated every run)."
 DEF = "256,256,1024,1048576,0"
 NAME_START = b"abcxyzABCXYZ_:"
 NAME_CHARS = NAME_START + b"0129-."
